@@ -60,6 +60,7 @@ type Term struct {
 	Name string
 	ID   int
 	VarID int
+	H    uint64 // structural hash: identical across workers for identical structure
 	Vars []int // sorted ids of free variables (nil for const); capped
 	Many bool  // more than maxVars variables
 	Size int
@@ -130,6 +131,15 @@ func (c *Ctx) mk(op Op, w int, args []*Term, val uint64, name string) *Term {
 	}
 	t := &Term{Op: op, W: w, Args: args, Val: val, Name: name, ID: c.next, VarID: -1, Size: 1}
 	c.next++
+	h := uint64(op)*0x9E3779B97F4A7C15 ^ uint64(w)*0xC2B2AE3D27D4EB4F ^ val*0x165667B19E3779F9
+	for i := 0; i < len(name); i++ {
+		h = (h ^ uint64(name[i])) * 0x100000001B3
+	}
+	for _, a := range args {
+		h = (h ^ a.H) * 0xBF58476D1CE4E5B9
+		h ^= h >> 29
+	}
+	t.H = h
 	for _, a := range args {
 		t.Size += a.Size
 		if a.Many {
@@ -178,6 +188,15 @@ func mergeVars(a, b []int) []int {
 		}
 	}
 	return out
+}
+
+// before orders terms by structure (not by creation order), so that the
+// normal forms built by the simplifier are the same in every worker.
+func before(a, b *Term) bool {
+	if a.H != b.H {
+		return a.H < b.H
+	}
+	return a.ID < b.ID
 }
 
 func (t *Term) IsConst() bool { return t.Op == OpConst }
@@ -263,7 +282,7 @@ func (c *Ctx) And(a, b *Term) *Term {
 	if a == b {
 		return a
 	}
-	if a.ID > b.ID {
+	if before(b, a) {
 		a, b = b, a
 	}
 	return c.mk(OpAnd, 0, []*Term{a, b}, 0, "")
@@ -285,7 +304,7 @@ func (c *Ctx) Or(a, b *Term) *Term {
 	if a == b {
 		return a
 	}
-	if a.ID > b.ID {
+	if before(b, a) {
 		a, b = b, a
 	}
 	return c.mk(OpOr, 0, []*Term{a, b}, 0, "")
@@ -345,7 +364,7 @@ func (c *Ctx) Add(a, b *Term) *Term {
 	default:
 		// cancel x + (0 - x)-like shapes is not attempted; order by ID
 		x, y := ba, bb
-		if x.ID > y.ID {
+		if before(y, x) {
 			x, y = y, x
 		}
 		// (p - q) + q => p
@@ -557,7 +576,7 @@ func (c *Ctx) Eq(a, b *Term) *Term {
 			}
 		}
 	}
-	if a.ID > b.ID {
+	if before(b, a) {
 		a, b = b, a
 	}
 	return c.mk(OpEq, 0, []*Term{a, b}, 0, "")
